@@ -141,7 +141,10 @@ def directed(prop, cfg, notes, n=6000, cap=60):
     notes.append('directed search: %d of %d compile-ready random items expand differently in %s' % (len(out), len(its), cfg))
     out.sort(key=lambda it: len(it.rust()))
     # smallest first, but keep some spread
-    pickd = out[:cap // 2] + out[cap // 2::max(1, (len(out) - cap // 2) // (cap // 2) or 1)][:cap // 2]
+    neg = [it for it in out if getattr(it, 'expect_error', None)]
+    neg.sort(key=lambda it: ('Wr<' not in it.rust(), len(it.rust())))
+    out = [it for it in out if not getattr(it, 'expect_error', None)]
+    pickd = neg[:24] + out[:cap // 2] + out[cap // 2::max(1, (len(out) - cap // 2) // (cap // 2) or 1)][:cap // 2]
     return [('directed', bharness.b_transform(it)) for it in pickd]
 
 
